@@ -197,6 +197,7 @@ def run(vc):
     vc.explore("_calc_pq_elements_and_add_on_ppc[bus load]", h_busload, max_paths=200)
     run_pfsoln_choice(vc)
     run_local_load(vc)
+    _standins(vc)
 
 
 class _Fn:
@@ -304,6 +305,20 @@ def run_local_load(vc):
         p.prove("local-load:p of the reference machines = network injection + load of the bus at the solved voltage", to_z(got[0], R) == want,
                 meta=dict(part="local-load"))
     vc.explore("_update_p[local load]", h_p, max_paths=20)
+
+
+F_DCLINE = "C01/res_bus-omits-dcline-terminals"
+
+
+def _standins(vc):
+    if not hasattr(vc, "native_standins"):
+        vc.native_standins = []
+    vc.native_standins.append(dict(
+        name="nodal balance and res_bus on a fixed network with the bus elements outside the deductive part",
+        bound="one 5-bus 110 kV network with a dcline, storage, ward, shunt, gen and loads; AC power flow; per bus: element results against "
+              "branch flows, res_bus.p_mw / q_mvar against the elements' own results (dcline terminals counted as bus elements)",
+        script="from replaylib.nodal import main_elements\nmain_elements()\n",
+        known={F_DCLINE: r"network with a dcline: bus \d+: res_bus\.(p_mw|q_mvar) .* != net element consumption"}))
 
 
 def classify(ob, model):
